@@ -33,6 +33,14 @@ def lcsTable [DecidableEq α] : List α → List α → List Nat
 /-- the same optimum by dynamic programming (quadratic) -/
 def lcsLenDP [DecidableEq α] (x y : List α) : Nat := (lcsTable x y).headD 0
 
+/-- Which argument the ELEMENTS returned by `LCSFunc(as, bs, eq)` are taken from.  It only matters
+for an `eq` coarser than `==` (elements that are `eq` but different).  The documentation is silent;
+the code sizes its buffers by "the smaller input" (`if len(bs) < len(as) { as, bs = bs, as }`) and
+reads the output from the swapped `as` (`out = append(out, as[p.i])`): the elements come from the
+SHORTER argument, and from the FIRST one when both are equally long.  The driver checks the
+implementation's values against this rule; `Props.C12.lcsFunc_values_from` proves it of the model. -/
+def lcsSource (as bs : List α) : List α := if bs.length < as.length then bs else as
+
 /-- all adjacent-or-not pairs in order satisfy `R` (Bool version of `List.Pairwise`) -/
 def pairwiseB (R : α → α → Bool) : List α → Bool
   | [] => true
